@@ -196,11 +196,17 @@ def check(ctx):
 
     # ---- C01.place -------------------------------------------------------------------------------------------------------------
     b = prog.cls('adv_shell', 'Builder')
+    from .shared import shell_frame_anchors, frame_entities
+    fa = shell_frame_anchors(ctx)
     for meth, attr, what in (('_create_headerfile', 'as_decl', 'declared in the header'),
                              ('_create_sourcefile', 'as_def', 'defined in the source')):
-        m = b.methods.get(meth)
-        ok = m is not None and any(isinstance(n, ast.Attribute) and n.attr == attr and
-                                   ast.unparse(n.value).endswith('.constructor') for n in iter_own_nodes(m.node))
+        if fa is not None:
+            # read off the evaluated file template (E4): the header renders the constructor's declaration, the source its body
+            ok = 'constructor' in frame_entities(fa['header' if attr == 'as_decl' else 'source'], 'initialization' if attr == 'as_decl' else 'contents')
+        else:
+            m = b.methods.get(meth)
+            ok = m is not None and any(isinstance(n, ast.Attribute) and n.attr == attr and
+                                       ast.unparse(n.value).endswith('.constructor') for n in iter_own_nodes(m.node))
         run.add('C01.place', 'dznpy.adv_shell', f'Builder.{meth}', f'constructor.{attr}', ok,
                 f'the constructor carrying the links is {what}' if ok else f'the constructor is not {what}')
     build = prog.func('adv_shell', 'Builder.build')
